@@ -7,7 +7,13 @@ import argparse, json, random, sys
 FIELD_NAMES = ["r#type", "r#fn", "r#match", "r#ref", "errors", "default", "items", "item", "attr", "flatten", "skip", "rename", "map", "with",
                "value", "e", "err", "v", "inner", "name", "len", "other", "result", "r#loop", "r#struct", "r#Self_x", "x_default", "fwd_attrs", "val"]
 VARIANT_NAMES = ["Default", "Ok", "Err", "Some", "None", "Result", "Option", "Box", "Vec", "String", "Item", "Error", "FromMeta", "Meta", "Path", "Word", "Skip", "R#Type".replace("R#", "r#T") if False else "Type"]
-TYPE_PARAMS = ["T", "U", "__T", "Item", "E"]
+TYPE_PARAMS = ["T", "U", "__T", "Item", "E", "Error", "M"]
+STRING, VEC, OPTION, DEFAULT, OK = "::std::string::String", "::std::vec::Vec", "::core::option::Option", "::core::default::Default::default()", "::core::result::Result::Ok"
+# items that shadow every prelude / crate name a careless expansion could mention without `::darling::export::`
+HOSTILE_SCOPE = """    pub struct Default; pub struct Option; pub struct Result; pub struct Some; pub struct None; pub struct Ok; pub struct Err;
+    pub struct Vec; pub struct String; pub struct Box; pub struct From; pub struct Into; pub struct FromMeta; pub struct Error; pub struct Iterator;
+    pub struct IntoIterator; pub struct Clone; pub struct Ident; pub struct Meta; pub struct NestedMeta; pub struct Attribute; pub struct Path;
+    pub mod darling {} pub mod syn {} pub mod core {} pub mod std {} pub mod export {} pub mod ast {} pub mod util {}"""
 
 
 def tagged(path):
@@ -23,17 +29,18 @@ def opt_text(it, ctx):
     n, f = it["name"], it["form"]
     h = []
     me = ctx["me"]          # unique suffix
-    ft = ctx.get("ft", "String")
+    ft = ctx.get("ft", STRING)
     src_ty = ctx.get("src", ft)   # what the converter yields before map/and_then
+    g = ctx.get("g", "")          # "<T>" for a generic receiver, "" otherwise
     if n == "rename":
         return 'rename = "renamed_%s"' % me, h
     if n == "default":
         if f == "word":
             return "default", h
-        h.append("pub fn fd_%s() -> %s { Default::default() }" % (me, ctx["dt"]))
+        h.append("pub fn fd_%s%s() -> %s { %s }" % (me, ctx.get("dg", ""), ctx["dt"], DEFAULT))
         return ('default = "fd_%s"' if f == "str" else "default = fd_%s") % me, h
     if n == "with":
-        h.append("pub fn w_%s(m: &syn::Meta) -> darling::Result<%s> { <%s as darling::FromMeta>::from_meta(m) }" % (me, src_ty, src_ty))
+        h.append("pub fn w_%s(m: &::syn::Meta) -> ::darling::Result<%s> { <%s as ::darling::FromMeta>::from_meta(m) }" % (me, src_ty, src_ty))
         return ("with = w_%s" % me) if f == "path" else ("with = |m| w_%s(m)" % me), h
     if n == "skip":
         return {"word": "skip", "true": "skip = true", "false": "skip = false"}[f], h
@@ -41,7 +48,7 @@ def opt_text(it, ctx):
         h.append("pub fn m_%s(v: %s) -> %s { v }" % (me, src_ty, src_ty))
         return ('map = "m_%s"' if f == "str" else "map = m_%s") % me, h
     if n == "and_then":
-        h.append("pub fn t_%s(v: %s) -> darling::Result<%s> { Ok(v) }" % (me, src_ty, src_ty))
+        h.append("pub fn t_%s(v: %s) -> ::darling::Result<%s> { %s(v) }" % (me, src_ty, src_ty, OK))
         return ('and_then = "t_%s"' if f == "str" else "and_then = t_%s") % me, h
     if n == "multiple":
         return {"word": "multiple", "true": "multiple = true", "false": "multiple = false"}[f], h
@@ -60,10 +67,10 @@ def opt_text(it, ctx):
     if n == "from_ident":
         return "from_ident", h
     if n == "from_word":
-        h.append("pub fn fw_%s() -> darling::Result<%s> { Ok(Default::default()) }" % (me, ctx["self"]))
+        h.append("pub fn fw_%s%s() -> ::darling::Result<%s> { %s(%s) }" % (me, g, ctx["self"], OK, DEFAULT))
         return ("from_word = fw_%s" % me) if f == "path" else ("from_word = || fw_%s()" % me), h
     if n == "from_none":
-        return "from_none = || None", h
+        return "from_none = || ::core::option::Option::None", h
     if n == "supports":
         v = ctx["derive"] == "FromVariant"
         if f == "empty":
@@ -75,7 +82,13 @@ def opt_text(it, ctx):
 def render(case, idx, rng):
     d = case["derive"]
     shape = case["shape"]
-    name = "R%d" % idx
+    # a third of the receivers are generic (over a parameter with an unhelpful name), half live in a hostile scope
+    tp = rng.choice(TYPE_PARAMS)
+    generic = shape in ("named", "named_attrs", "enum") and rng.random() < 0.34
+    hostile = rng.random() < 0.5
+    g = "<%s>" % tp if generic else ""
+    bare = "R%d" % idx
+    name = bare + g
     helpers = []
     # the recorded known deviation of C10 (from_ident followed by default is rejected): not an accepted declaration
     names_c = [i["name"] for i in case["cont"]]
@@ -90,26 +103,24 @@ def render(case, idx, rng):
     copts = []
     needs_default = False
     for k, it in enumerate(case["cont"]):
-        t, h = opt_text(it, {"me": "%d_c%d" % (idx, k), "dt": name, "self": name, "derive": d})
+        t, h = opt_text(it, {"me": "%d_c%d" % (idx, k), "dt": name, "dg": g, "self": name, "derive": d, "g": g})
         if it["name"] in ("map", "and_then"):
             fn = "cm_%d" % idx
             if it["name"] == "map":
-                h = ["pub fn %s(v: %s) -> %s { v }" % (fn, name, name)]
+                h = ["pub fn %s%s(v: %s) -> %s { v }" % (fn, g, name, name)]
                 t = ('map = "%s"' if it["form"] == "str" else "map = %s") % fn
             else:
-                h = ["pub fn %s(v: %s) -> darling::Result<%s> { Ok(v) }" % (fn, name, name)]
+                h = ["pub fn %s%s(v: %s) -> ::darling::Result<%s> { %s(v) }" % (fn, g, name, name, OK)]
                 t = ('and_then = "%s"' if it["form"] == "str" else "and_then = %s") % fn
-        if it["name"] == "default" and it["form"] != "word":
-            h = ["pub fn fd_%d_c%d() -> %s { Default::default() }" % (idx, k, name)]
         if it["name"] in ("default", "from_word"):
             needs_default = True
         if it["name"] == "from_ident":
-            helpers.append("impl From<%s> for %s { fn from(_: %s) -> Self { Default::default() } }" % (
-                ("Option<syn::Ident>", name, "Option<syn::Ident>") if d == "FromField" else ("syn::Ident", name, "syn::Ident")))
+            src_ident = (OPTION + "<::syn::Ident>") if d == "FromField" else "::syn::Ident"
+            helpers.append("impl%s ::core::convert::From<%s> for %s { fn from(_: %s) -> Self { %s } }" % (g, src_ident, name, src_ident, DEFAULT))
             needs_default = True
         copts.append(t)
         helpers += h
-    derives = "#[derive(Debug, Clone, %sdarling::%s)]" % ("Default, " if needs_default or True else "", d)
+    derives = "#[derive(Debug, Clone, %s::darling::%s)]" % ("" if generic else "Default, ", d)
     cattr = ("#[darling(%s)]\n" % ", ".join(copts)) if copts else ""
     if d == "FromAttributes" and not any(i["name"] == "attributes" and i["form"] == "words" for i in case["cont"]) and shape != "newtype":
         return None
@@ -118,42 +129,52 @@ def render(case, idx, rng):
         return None       # `attrs` is a magic member only for the element-level traits that forward attributes
     if shape in ("named", "named_attrs"):
         fields = []
+        fnames = []
         for fi, key in enumerate(["f1", "f2"]):
             if key == "f2" and not (shape == "named" and case["f2present"]):
                 continue
             items = case[key]
             names = [i["name"] for i in items]
-            ft = "String"
+            ft = STRING
             if any(i["name"] == "multiple" and i["form"] in ("word", "true") for i in items):
-                ft = "Vec<String>"
+                ft = VEC + "<" + STRING + ">"
             if "flatten" in names:
                 ft = "Inner%d" % idx
-                helpers.append("#[derive(Debug, Clone, Default, darling::FromMeta)] pub struct Inner%d { #[darling(default)] pub %s: String }" % (idx, pool[5]))
-            src = "String" if ft != "Inner%d" % idx else ft
+                helpers.append("#[derive(Debug, Clone, Default, ::darling::FromMeta)] pub struct Inner%d { #[darling(default)] pub %s: %s }" % (idx, pool[5], STRING))
+            src = STRING if ft != "Inner%d" % idx else ft
             fo = []
             for k, it in enumerate(items):
-                t, h = opt_text(it, {"me": "%d_%s_%d" % (idx, key, k), "ft": ft, "src": src, "dt": ft, "self": name, "derive": d})
+                t, h = opt_text(it, {"me": "%d_%s_%d" % (idx, key, k), "ft": ft, "src": src, "dt": ft, "self": name, "derive": d, "g": g})
                 fo.append(t)
                 helpers += h
             fname = pool[fi]
+            fnames.append(fname)
             fields.append("    %spub %s: %s," % (("#[darling(%s)] " % ", ".join(fo)) if fo else "", fname, ft))
+        if generic:
+            # the parameter is used by an optional member, so that the derive has to bound it
+            fields.append("    pub %s: %s<%s>," % (pool[6], OPTION, tp))
+            fnames.append(pool[6])
         if shape == "named_attrs":
-            fields.append("    pub attrs: Vec<syn::Attribute>,")
+            fields.append("    pub attrs: %s<::syn::Attribute>," % VEC)
+            fnames.append("attrs")
         body = "pub struct %s {\n%s\n}" % (name, "\n".join(fields))
+        if generic:
+            helpers.append("impl%s ::core::default::Default for %s { fn default() -> Self { Self { %s } } }" % (
+                g, name, ", ".join("%s: %s" % (f, DEFAULT) for f in fnames)))
     elif shape == "unit":
         body = "pub struct %s;" % name
     elif shape == "newtype":
-        inner = {"FromMeta": "String", "FromDeriveInput": "syn::DeriveInput", "FromField": "syn::Field", "FromVariant": "syn::Variant",
-                 "FromTypeParam": "syn::TypeParam", "FromAttributes": "Vec<syn::Attribute>"}[d]
+        inner = {"FromMeta": STRING, "FromDeriveInput": "::syn::DeriveInput", "FromField": "::syn::Field", "FromVariant": "::syn::Variant",
+                 "FromTypeParam": "::syn::TypeParam", "FromAttributes": VEC + "<::syn::Attribute>"}[d]
         if d == "FromAttributes":
             return None
-        derives = "#[derive(darling::%s)]" % d
+        derives = "#[derive(::darling::%s)]" % d
         body = "pub struct %s(pub %s);" % (name, inner)
-        helpers = [h for h in helpers if "Default::default()" not in h]
+        helpers = [h for h in helpers if DEFAULT not in h]
         if needs_default:
             return None
     elif shape == "tuple2":
-        body = "pub struct %s(pub String, pub u8);" % name
+        body = "pub struct %s(pub %s, pub u8);" % (name, STRING)
     elif shape == "enum":
         vs = []
         vn = VARIANT_NAMES[:]
@@ -164,22 +185,25 @@ def render(case, idx, rng):
             items = case[key]
             vo = []
             for k, it in enumerate(items):
-                t, h = opt_text(it, {"me": "%d_%s_%d" % (idx, key, k), "self": name, "derive": d})
+                t, h = opt_text(it, {"me": "%d_%s_%d" % (idx, key, k), "self": name, "derive": d, "g": g})
                 vo.append(t)
             st = case["v1style"] if key == "v1" else "unit"
-            sfx = {"unit": "", "newtype": "(String)", "struct": " { %s: String, #[darling(default)] %s: u8 }" % (pool[3], pool[4]), "tuple2": "(String, u8)"}[st]
+            sfx = {"unit": "", "newtype": "(%s)" % STRING, "struct": " { %s: %s, #[darling(default)] %s: u8 }" % (pool[3], STRING, pool[4]),
+                   "tuple2": "(%s, u8)" % STRING}[st]
             vs.append("    %s%s%s," % (("#[darling(%s)] " % ", ".join(vo)) if vo else "", vn[vi], sfx))
-        derives = "#[derive(Debug, Clone, darling::%s)]" % d
+        if generic:
+            vs.append("    %s(%s)," % (vn[2], tp))
+        derives = "#[derive(Debug, Clone, ::darling::%s)]" % d
         body = "pub enum %s {\n%s\n}" % (name, "\n".join(vs))
         if needs_default:
             first = vn[0]
             unit_first = case["v1style"] == "unit"
             if not unit_first:
                 return None
-            helpers.append("impl Default for %s { fn default() -> Self { %s::%s } }" % (name, name, first))
+            helpers.append("impl%s ::core::default::Default for %s { fn default() -> Self { %s::%s } }" % (g, name, bare, first))
     else:
         return None
-    src = "pub mod m%d {\n%s\n%s%s\n%s\n}\n" % (idx, derives, cattr, body, "\n".join(helpers))
+    src = "pub mod m%d {\n%s%s\n%s%s\n%s\n}\n" % (idx, (HOSTILE_SCOPE + "\n") if hostile else "", derives, cattr, body, "\n".join(helpers))
     return src
 
 
